@@ -15,7 +15,8 @@ RULE = ('Hypothesis generates HISTORIES (3-12 operations, shrunk as one value) o
         'xsl:message terminate, undeclared key (run-time XPath error), missing extension function, unknown output encoding, compile error, missing document(). '
         'Oracle: after the history, every transformation step is repeated on a NEW transformer configured from a small model of what is currently set '
         '(parameters, settings, installed function); return code, output bytes and emptiness of the error text must be identical. '
-        'Non-trivial: a failing transformation is followed by a successful one, or a parameter survives >= 2 transformations. distinct = case text.')
+        'Non-trivial: a failing transformation is followed by a successful one, or a parameter survives >= 2 transformations. distinct = case text.'
+        " Programs 9 and 10: a failure inside an attribute set depending on a parameter; a key with the name of program 1's key and another definition with xsl:number and predicate patterns. A quarter of the transformations write to a FormatterListener of the caller (events compared instead of bytes).")
 ASSUMPTIONS = ['a newly constructed XalanTransformer is the reference behaviour', 'destroyed stylesheets / sources are never used again (precondition respected by the generator)']
 
 XSL = 'http://www.w3.org/1999/XSL/Transform'
